@@ -124,8 +124,9 @@ Theorem C03_render_roundtrip : forall (tc : P2.Lex.Tok.tcfg) (pc : pcfg) (ids : 
 Proof. exact render_roundtrip. Qed.
 
 (* COMFORT MODE (Syn/RenderComfort.v): the same tree written with multiplication signs LEFT OUT and lexemes set tight.
-   A directive per token of the canonical stream says "write nothing" (only for the operator token  * ) and "one blank
-   behind the lexeme or none"; [render_comfort pc r ds] is that text ([] = the canonical text above).  [cspellable] is a
+   A directive per token of the canonical stream says "write nothing" (only for the operator token  * ) and which
+   separator run follows the lexeme - any list of blanks, tabs, CR, LF, line and block comments, or nothing;
+   [render_comfort pc r ds] is that text ([] = the canonical text above).  [cspellable] is a
    BOOLEAN that walks the tokens with the bookkeeping of token.go run() - lastTokenType is tNumber / tIdent / tClose
    behind a number, a (quoted) identifier, ')' when comfort mode is on and tInvalid otherwise, blanks keep it and set
    lastWasBlank; the scanner sends  *  in front of a number / identifier / quoted identifier when lastTokenType is one
@@ -133,7 +134,9 @@ Proof. exact render_roundtrip. Qed.
    left out only where the scanner puts it back ( 2a , 2 a , a b , 2(a) , a (b) , (a)(b) , (a)b , 2'x y' ); where the
    scanner would put one that the tokens do not have, the lexemes are written so that it does not ( f(x)  tight; the
    call of a parenthesised or numeric callee is not spellable in comfort mode at all: it reads as a product); a lexeme
-   without a blank behind it ends where its scanner stops ( 2e  is one number:  2 e  needs its blank).
+   with nothing behind it ends where its scanner stops ( 2e  is one number:  2 e  needs its blank); separators are well
+   formed and form no comment opener with an operator in front of them.  Separators keep lastTokenType and set
+   lastWasBlank:  a /* c */ (b)  is the product like  a (b) .
    For EVERY tokenizer configuration (comfort on or off), operator table, tree and admissible directive list the text
    tokenizes to the canonical tokens - every omitted sign back in place, none added - and parses to the AST the tree
    denotes: the same AST as the explicit text, whatever was left out. *)
@@ -327,7 +330,7 @@ Example C03_render_rejects_keyword_identifier :
 Proof. vm_compute. repeat split; reflexivity. Qed.
 
 (* comfort mode, non-vacuity: table  +  -  *  (ascending), prefix  - ; tokenizer with comfort mode and comments.
-     2a+(a+1)(1-a)-c(2 b)
+     2a+(a+1)(1-a)-c(2 b)          (and   a/* c */ LF TAB (b)   for  a*(b) , last lines of the example)
    is the comfort text of  2*a + ((a+1)*(1-a) - c(2*b))  with three signs left out and every lexeme tight but the
    number in  2 b ; it is admissible and reads back to the AST of the tree.  The call  c(a)  must be written tight:
    its canonical text  c ( a )  is NOT admissible in comfort mode - and indeed reads as the product  c*(a) ; a call
@@ -336,7 +339,8 @@ Definition cm_pc : pcfg := mkPcfg [[43]; [45]; [42]]%N [[45]]%N (Some (fun s => 
 Definition cm_tc : P2.Lex.Tok.tcfg :=
   P2.Lex.Tok.mkCfg [[43]; [45]; [42]; [61]; [45; 62]]%N [] [P2.Syn.Parse.s_let; s_if; s_then; s_else] true true P2.Lex.Tok.MSimple
     (fun c => ((65 <=? c) && (c <=? 90)) || ((97 <=? c) && (c <=? 122)))%N (fun c => (48 <=? c) && (c <=? 57))%N.
-Definition cm_t := mkDir false false. Definition cm_o := mkDir true true. Definition cm_b := mkDir false true.
+Definition cm_t := mkDir false []. Definition cm_o := mkDir true []. Definition cm_b := mkDir false [P2.Lex.Tok.SBlank].
+Definition cm_c := mkDir false [P2.Lex.Tok.SBlockC [32; 99; 32]%N; P2.Lex.Tok.SLF; P2.Lex.Tok.STab].
 Definition cm_prog : ft :=
   FBin 0 (FBin 2 (FNum [50%N]) rd_a)
     (FBin 1 (FBin 2 (FParen (FBin 0 rd_a (FNum [49%N]))) (FParen (FBin 1 (FNum [49%N]) rd_a)))
@@ -350,7 +354,11 @@ Example C03_comfort_nonvacuous :
      parse_tokens cm_pc ex_ids (P2.Lex.Tok.tokenize cm_tc cm_text) = POk e) /\
   cspellable cm_tc cm_pc cm_prog (omit_all cm_tc tInvalid (fflatten cm_pc cm_prog)) = false /\
   cspellable cm_tc cm_pc (FBin 2 rd_a (FParen rd_b)) (omit_all cm_tc tInvalid (fflatten cm_pc (FBin 2 rd_a (FParen rd_b)))) = true /\
-  render_comfort cm_pc (FBin 2 rd_a (FParen rd_b)) (omit_all cm_tc tInvalid (fflatten cm_pc (FBin 2 rd_a (FParen rd_b)))) = [97; 32; 40; 32; 98; 32; 41; 32]%N.
+  render_comfort cm_pc (FBin 2 rd_a (FParen rd_b)) (omit_all cm_tc tInvalid (fflatten cm_pc (FBin 2 rd_a (FParen rd_b)))) = [97; 32; 40; 32; 98; 32; 41; 32]%N /\
+  cspellable cm_tc cm_pc (FBin 2 rd_a (FParen rd_b)) [cm_c; cm_o; cm_t; cm_t; cm_t] = true /\
+  render_comfort cm_pc (FBin 2 rd_a (FParen rd_b)) [cm_c; cm_o; cm_t; cm_t; cm_t] = [97; 47; 42; 32; 99; 32; 42; 47; 10; 9; 40; 98; 41]%N /\
+  parse_tokens cm_pc ex_ids (P2.Lex.Tok.tokenize cm_tc [97; 47; 42; 32; 99; 32; 42; 47; 10; 9; 40; 98; 41]%N)
+    = POk (AOp [42%N] 2 (AIdent [97%N] false) (AIdent [98%N] false)).
 Proof.
   split; [vm_compute; reflexivity|]. split; [vm_compute; reflexivity|]. split; [vm_compute; reflexivity|].
   split; [eexists; eexists; split; vm_compute; reflexivity|]. vm_compute. repeat split; reflexivity.
